@@ -180,6 +180,10 @@ func verifC10Errs(err error) []string {
 			err = l
 		}
 	}
+	// MergeExp.wrapError
+	if be, ok := err.(*bindingError); ok && be.Err != nil && strings.HasPrefix(be.Msg, "merge for ") {
+		err = be.Err
+	}
 	if l, ok := err.(ErrorList); ok {
 		r := make([]string, 0, len(l))
 		for _, e := range l {
